@@ -49,7 +49,12 @@ func Check() *engine.Check {
 			"256/384/521, RSA 2048 [3072/4096 thorough], with/without certificate, with/without X-Key-ID, 1-3 entries, key_id first/last/unset) x " +
 			"claim templates (none, custom, every reserved claim overridden with wrong values and wrong JSON types, nested, subject dependent) x " +
 			"subjects x TTLs x signer name x header config through the real jwt finalizer Execute with the clock frozen; token verified against the " +
-			"body of the real JWKS endpoint, system claims exact, no private JWK members. states = distinct (results, precedence) histories of " +
+			"body of the real JWKS endpoint, system claims exact, no private JWK members. (C) families: every ordered pair and triple of the " +
+			"catalogue jwt finalizer and 4 rule-level variants (ttl and/or claims overridden) issuing tokens for one subject through one real " +
+			"in-memory cache: each token verifies and carries the ttl and claims of the member that issued it. (D) rotations: every sequence of 2 " +
+			"and 3 out of 8 key store versions (same ids with new keys, swapped ids, reordered, fewer entries, generated ids, certificate added) " +
+			"reloaded into one signer behind ONE long-lived management handler, JWKS read after every step or only at the end: the endpoint lists " +
+			"exactly the keys in effect and fresh tokens verify against it. states = distinct (results, precedence) histories of " +
 			"(A) plus distinct configurations of (B); transitions = scheduling decisions; traces = schedules + configurations executed.",
 		Assumptions: []string{
 			"code between scheduling points (go-jose, keystore parsing) is atomic; closed by the free-running -race pass",
@@ -510,6 +515,11 @@ func run(c *engine.Ctx) {
 	defer env.ClearNow()
 
 	runConfigs(c)
+
+	idx := 0
+
+	runFamilies(c, &idx)
+	runRotations(c, &idx)
 }
 
 func replay(c *engine.Ctx, raw json.RawMessage) {
@@ -519,6 +529,43 @@ func replay(c *engine.Ctx, raw json.RawMessage) {
 
 	if json.Unmarshal(raw, &probe) == nil && probe.RacePass {
 		engine.RunRacePass(c)
+
+		return
+	}
+
+	var part struct {
+		Part string `json:"part"`
+	}
+
+	if json.Unmarshal(raw, &part) == nil && (part.Part == "families" || part.Part == "rotations") {
+		defer func() {
+			if workDir != "" {
+				_ = os.RemoveAll(workDir)
+			}
+		}()
+
+		env.SetNow(env.T0)
+		defer env.ClearNow()
+
+		var sig, sum string
+
+		if part.Part == "families" {
+			var fc FamilyCase
+
+			_ = json.Unmarshal(raw, &fc)
+			sig, sum = execFamily(&fc)
+		} else {
+			var roc RotationCase
+
+			_ = json.Unmarshal(raw, &roc)
+			sig, sum = execRotation(&roc)
+		}
+
+		fmt.Printf("replay: %s -> %q %s\n", string(raw), sig, sum)
+
+		if sig != "" {
+			c.Violation(sig, sum, json.RawMessage(raw))
+		}
 
 		return
 	}
